@@ -34,6 +34,7 @@ type ndProfile struct {
 	drop, dup, early, fast, crash, crashmid, hold, part, heal, byz, catchup int // per mille
 	maxCrashes                                                              int
 	stall                                                                   bool // fast timeouts allowed at any step
+	latepay                                                                 bool // late-payload family, see ndLatePay
 }
 
 func ndProfileOf(name string) ndProfile {
@@ -50,6 +51,8 @@ func ndProfileOf(name string) ndProfile {
 		return ndProfile{drop: 30, early: 30, fast: 5, crash: 25, crashmid: 6, hold: 10, maxCrashes: 6, catchup: 20}
 	case "byz":
 		return ndProfile{drop: 30, dup: 10, early: 30, fast: 5, byz: 80, catchup: 10}
+	case "latepay":
+		return ndProfile{dup: 10, early: 10, fast: 3, byz: 25, catchup: 10, latepay: true}
 	case "stall":
 		return ndProfile{drop: 30, early: 60, fast: 80, byz: 60, crash: 10, maxCrashes: 3, catchup: 10, stall: true}
 	default: // mixed
@@ -96,7 +99,7 @@ func (r *ndRun) candidates() (fresh, dups []*ndMsg) {
 			continue
 		}
 		live = append(live, m)
-		if !r.sameSide(m.src, m.dst) || r.heldBusyLocked(m.dst) {
+		if !r.sameSide(m.src, m.dst) || r.heldBusyLocked(m.dst) || r.lpWithheldLocked(m) {
 			continue
 		}
 		if r.delivered[m.dst][m.hash] {
@@ -116,6 +119,11 @@ func (r *ndRun) generate() string {
 		return l
 	}
 	p := ndProfileOf(r.cfg.profile)
+	if p.latepay {
+		if l := r.lpStep(); l != "" {
+			return l
+		}
+	}
 	fresh, dups := r.candidates()
 	hon := r.honestIDs()
 	byz := r.byzIDs()
@@ -662,4 +670,168 @@ func (r *ndRun) refLedger() *ndLedger {
 
 func (r *ndRun) inject(src int, tag protocol.Tag, data []byte, mask []bool) {
 	r.onWire(src, tag, data, mask)
+}
+
+// ---------------------------------------------------------------------------------------------- late-payload family
+
+// ndLatePay: per round a set S of honest nodes (one node … a next-quorum) does not get proposal PAYLOADS while votes flow
+// (the proposer's stand-alone step-0 vote still arrives unless noProp is drawn, so S soft-votes the leading value and
+// sees its soft threshold without being able to cert-vote); the ordinary generator lets their deadlines expire (they
+// next-vote); after `extra` further timeouts (and optionally a fast-recovery vote) the payloads are released to S before
+// any other clock of S advances; then, for a while, cert votes reach one favoured node only.  Variants drawn per round:
+// payload also late for the soft-vote decision (noProp), the soft quorum reaches S as a bundle built by a Byzantine node
+// instead of as votes (asBundle), payload released during the later next steps or after a fast-recovery vote.
+type ndLatePay struct {
+	round    basics.Round
+	S        []bool
+	phase    int // 0 withhold, 1 release, 2 cert votes to one node, 3 off
+	noProp   bool
+	asBundle bool
+	bundled  bool
+	extra    int
+	fast     bool
+	favoured int
+	until    int // step count at which phase 2 ends
+}
+
+func (r *ndRun) lpInS(id int) bool { return r.lp != nil && r.lp.S[id] }
+
+// lpWithheldLocked: is this pending message currently held back by the late-payload adversary?
+func (r *ndRun) lpWithheldLocked(m *ndMsg) bool {
+	lp := r.lp
+	if lp == nil || lp.phase >= 3 {
+		return false
+	}
+	in := r.info(m)
+	if in.round != lp.round {
+		return false
+	}
+	switch lp.phase {
+	case 0:
+		if !lp.S[m.dst] {
+			return false
+		}
+		if in.kind == 'P' {
+			return true
+		}
+		if in.kind == 'V' && in.step == propose && lp.noProp {
+			return true
+		}
+		if in.kind == 'V' && in.step == soft && lp.asBundle {
+			return true
+		}
+	case 2:
+		if in.kind == 'V' && in.step == cert && in.period == 0 && m.dst != lp.favoured {
+			return true
+		}
+	}
+	return false
+}
+
+// lpStep drives the phases; "" = let the ordinary generator decide.
+func (r *ndRun) lpStep() string {
+	hon := r.honestIDs()
+	r.mu.Lock()
+	var minRound basics.Round
+	for i, id := range hon {
+		if n := r.nodes[id]; i == 0 || n.round < minRound {
+			minRound = n.round
+		}
+	}
+	lp := r.lp
+	if lp == nil || (lp.round < minRound && lp.phase > 0) || lp.round+1 < minRound {
+		// a new round for the adversary: draw S and the variant
+		k := 1 + r.rng.Intn(len(hon)-1)
+		if r.rng.Intn(2) == 0 {
+			k = len(hon) - 1 // a next-quorum worth of nodes without the payload
+		}
+		lp = &ndLatePay{round: minRound, S: make([]bool, r.cfg.n), noProp: r.rng.Intn(4) == 0, extra: r.rng.Intn(3) % 2 * (1 + r.rng.Intn(2)),
+			fast: r.rng.Intn(5) == 0, asBundle: len(r.byzIDs()) > 0 && r.rng.Intn(2) == 0}
+		perm := append([]int{}, hon...)
+		for i := len(perm) - 1; i > 0; i-- {
+			j := r.rng.Intn(i + 1)
+			perm[i], perm[j] = perm[j], perm[i]
+		}
+		for _, id := range perm[:k] {
+			lp.S[id] = true
+		}
+		lp.favoured = perm[r.rng.Intn(len(perm))]
+		r.lp = lp
+		r.logLocked("LATEPAY round=%d S=%v noprop=%v bundle=%v extra=%d fast=%v favoured=%d", lp.round, lp.S, lp.noProp, lp.asBundle, lp.extra, lp.fast, lp.favoured)
+	}
+	defer r.mu.Unlock()
+	switch lp.phase {
+	case 0:
+		// variant: the soft quorum reaches S as a bundle made by a Byzantine node
+		if lp.asBundle && !lp.bundled {
+			key := fmt.Sprintf("%d/%d/%d", lp.round, 0, soft)
+			cnt := map[string]uint64{}
+			for snd, vs := range r.wireVotes[key] {
+				for _, uv := range vs {
+					cnt[ndTok(uv.R.Proposal)] += r.cfg.w[snd]
+				}
+			}
+			for tok, w := range cnt {
+				if w+1 >= r.cfg.T && tok != "bot" { // the Byzantine node's own vote may complete it
+					lp.bundled = true
+					mask := make([]byte, r.cfg.n)
+					for i := range mask {
+						mask[i] = '0'
+						if lp.S[i] {
+							mask[i] = '1'
+						}
+					}
+					return fmt.Sprintf("bb %d %d 0 %d %s %s", r.byzIDs()[0], lp.round, soft, tok, string(mask))
+				}
+			}
+		}
+		// phase 0 ends when every node of S has left the soft and cert steps of period 0 (or the period / round)
+		want := next + step(lp.extra)
+		done := true
+		for id, in := range lp.S {
+			if !in {
+				continue
+			}
+			n := r.nodes[id]
+			if n.round == lp.round && n.period == 0 && n.step < want {
+				done = false
+			}
+		}
+		if !done {
+			return ""
+		}
+		lp.phase = 1
+		if lp.fast {
+			for id, in := range lp.S {
+				if in && r.nodes[id].round == lp.round {
+					r.genQueue = append(r.genQueue, fmt.Sprintf("f %d", id), fmt.Sprintf("f %d", id))
+				}
+			}
+			if len(r.genQueue) > 0 {
+				l := r.genQueue[0]
+				r.genQueue = r.genQueue[1:]
+				return l
+			}
+		}
+		fallthrough
+	case 1:
+		// release what was withheld to S, before any clock of S advances
+		for _, m := range r.pending {
+			if m.consumed || !lp.S[m.dst] || r.delivered[m.dst][m.hash] || !r.sameSide(m.src, m.dst) {
+				continue
+			}
+			in := r.info(m)
+			if in.round == lp.round && (in.kind == 'P' || (in.kind == 'V' && in.step == propose)) {
+				return "d " + m.key
+			}
+		}
+		lp.phase = 2
+		lp.until = r.stats.steps + 60 + r.rng.Intn(240)
+		return ""
+	case 2:
+		if r.stats.steps >= lp.until {
+			lp.phase = 3
+		}
+	}
+	return ""
 }
